@@ -51,6 +51,12 @@ ASSUMPTIONS = [
     'the assignment; convention is re-assigned only 0 -> 3 (the only pair with compatible column and layer names)',
     'announced order of the underground blocks is also compared with the documented orderings (layer then column; '
     'dmplex: four-sided columns first, then three-sided, each by layer then column)',
+    'histories: convert, apply one edit (split_column, column centre re-specified with centre_specified set, one node '
+    'moved followed by the get_area / centroid refresh optimize() performs, rotate, translate, a surface set and the '
+    'indexes rebuilt, snap_columns_to_layers, refine of one column), convert again; the second grid is judged against the '
+    'reference rebuilt from the edited object; an edit that raises or leaves columns that do not share edges is not '
+    'judged here (C10/C11); two conversions without an edit must give identical grids and leave geometry and block map '
+    'unchanged',
     'reference trusted: ref/geo_c04.py']
 
 XS = [1.25, 2.5, 0.75]
@@ -474,53 +480,14 @@ def lib_frame(tb):
     return name
 
 
-def eval_case(ctx, atm, order, angle, bmkind, sidx, stats=None, route='direct'):
-    """Runs fromgeo on the configured geometry and evaluates every clause.
-    Returns (violations [(sig, what)], outcome, nontrivial)."""
-    import t2grids
-    geo, st = ctx.geo, ctx.st
-    out = []
-
-    def add(clause, cls, what):
-        sig = 'C04|fromgeo|%s|%s' % (clause, cls)
-        if not any(o[0] == sig for o in out):
-            out.append((sig, what))
-
-    with quiet():
-        try:
-            with core.timelimit(CASE_SECONDS):
-                geo, st = ctx.configure(atm, order, angle, sidx, route)
-        except core.CaseTimeout:
-            add('timeout-announcing', ctx.nameclass, 'setting up the announced lists did not return')
-            return out, 'timeout', True
-        except Exception as e:
-            import sys
-            add('announcing-raises-%s@%s' % (type(e).__name__, lib_frame(sys.exc_info()[2])),
-                'names=%s' % ctx.nameclass,
-                'bringing the geometry to its options / surfaces (route %s) raised %s: %s' % (route, type(e).__name__, e))
-            return out, 'raised', True
-        announced_b = list(geo.block_name_list)
-        announced_c = list(geo.block_connection_name_list)
-        bm = make_blockmap(bmkind, announced_b)
-        try:
-            with core.timelimit(CASE_SECONDS):
-                grid = t2grids.t2grid().fromgeo(geo) if bm is None else t2grids.t2grid().fromgeo(geo, bm)
-        except core.CaseTimeout:
-            add('timeout', ctx.nameclass, 'fromgeo did not return within %d s' % CASE_SECONDS)
-            return out, 'timeout', True
-        except Exception as e:
-            import sys
-            where = lib_frame(sys.exc_info()[2])
-            add('raises-%s@%s' % (type(e).__name__, where), 'names=%s' % ctx.nameclass,
-                'fromgeo raised %s: %s (announced blocks %r...)' % (type(e).__name__, e, announced_b[:4]))
-            return out, 'raised', True
+def judge(geo, st, grid, announced_b, announced_c, bm, atm, order, angle, tilted, rc_, add, stats=None):
+    """Every clause of the statement on one converted grid.  Returns (outcome, nontrivial)."""
     surf = [R.fr(c.surface) for c in geo.columnlist]
     raw = st.raw
     blocks, conns, rockvol = R.expected(st, surf, atm, R.fr(geo.atmosphere_connection), angle)
     m = (lambda n: n) if bm is None else (lambda n: bm.get(n, n))
-    natm = {0: 1, 1: ctx.ncol, 2: 0}[atm]
+    natm = {0: 1, 1: len(geo.columnlist), 2: 0}[atm]
     ac = 'atm%d' % atm
-    rc_ = '' if route == 'direct' else '|route=' + route.rstrip('012')
 
     # -- blocks: names, order
     got_b = [b.name for b in grid.blocklist]
@@ -637,7 +604,7 @@ def eval_case(ctx, atm, order, angle, bmkind, sidx, stats=None, route='direct'):
         if con.direction not in rc['dirs']:
             add('%s-direction' % kind, 'angle%g' % angle, 'connection %r: direction %r, expected %r (angle %g)'
                 % (names, con.direction, rc['dirs'], angle))
-        if not ctx.tilted:
+        if not tilted:
             lc = con.dircos
             if kind != 'horiz':
                 if not (isinstance(lc, (int, float)) or hasattr(lc, 'dtype')) or abs(lc + 1.0) > 1e-12:
@@ -660,8 +627,54 @@ def eval_case(ctx, atm, order, angle, bmkind, sidx, stats=None, route='direct'):
         stats['connections_beside_truncated'] += ntrunc
         stats['grids'] += 1
         stats['grids_nontrivial'] += 1 if (len(got_b) >= 2 and len(got_c) >= 1) else 0
-    outcome = '%s|%s|%s' % (ac, 'truncated' if ntrunc else 'level', 'VIOLATION' if out else 'ok')
-    return out, outcome, (len(got_b) >= 2 and len(got_c) >= 1)
+    return ntrunc, (len(got_b) >= 2 and len(got_c) >= 1)
+
+
+def eval_case(ctx, atm, order, angle, bmkind, sidx, stats=None, route='direct'):
+    """Runs fromgeo on the configured geometry and evaluates every clause.
+    Returns (violations [(sig, what)], outcome, nontrivial)."""
+    import t2grids
+    geo, st = ctx.geo, ctx.st
+    out = []
+
+    def add(clause, cls, what):
+        sig = 'C04|fromgeo|%s|%s' % (clause, cls)
+        if not any(o[0] == sig for o in out):
+            out.append((sig, what))
+
+    with quiet():
+        try:
+            with core.timelimit(CASE_SECONDS):
+                geo, st = ctx.configure(atm, order, angle, sidx, route)
+        except core.CaseTimeout:
+            add('timeout-announcing', ctx.nameclass, 'setting up the announced lists did not return')
+            return out, 'timeout', True
+        except Exception as e:
+            import sys
+            add('announcing-raises-%s@%s' % (type(e).__name__, lib_frame(sys.exc_info()[2])),
+                'names=%s' % ctx.nameclass,
+                'bringing the geometry to its options / surfaces (route %s) raised %s: %s' % (route, type(e).__name__, e))
+            return out, 'raised', True
+        announced_b = list(geo.block_name_list)
+        announced_c = list(geo.block_connection_name_list)
+        bm = make_blockmap(bmkind, announced_b)
+        try:
+            with core.timelimit(CASE_SECONDS):
+                grid = t2grids.t2grid().fromgeo(geo) if bm is None else t2grids.t2grid().fromgeo(geo, bm)
+        except core.CaseTimeout:
+            add('timeout', ctx.nameclass, 'fromgeo did not return within %d s' % CASE_SECONDS)
+            return out, 'timeout', True
+        except Exception as e:
+            import sys
+            where = lib_frame(sys.exc_info()[2])
+            add('raises-%s@%s' % (type(e).__name__, where), 'names=%s' % ctx.nameclass,
+                'fromgeo raised %s: %s (announced blocks %r...)' % (type(e).__name__, e, announced_b[:4]))
+            return out, 'raised', True
+    rc_ = '' if route == 'direct' else '|route=' + route.rstrip('012')
+    ntrunc, nontrivial = judge(geo, st, grid, announced_b, announced_c, bm, atm, order, angle, ctx.tilted, rc_, add,
+                               stats)
+    outcome = 'atm%d|%s|%s' % (atm, 'truncated' if ntrunc else 'level', 'VIOLATION' if out else 'ok')
+    return out, outcome, nontrivial
 
 
 def st_scale(st):
@@ -681,6 +694,156 @@ def st_scale(st):
 def st_zscale(st):
     zs = [float(b) for b in st.bottom]
     return RTOL * (max(zs) - min(zs)) + 8 * 2.3e-16 * max(abs(z) for z in zs)
+
+
+# ---------------------------------------------------------------------------------------------------------
+# histories on one geometry object: convert -> edit -> convert again
+
+def edits_of(ctx):
+    """The edit alphabet of a geometry (name-free descriptors)."""
+    out = [('none',)]
+    for i, c in enumerate(ctx.raw.cols):
+        if len(c['nodes']) == 4:
+            out += [('split', i, k) for k in range(4)]
+    out += [('centre', i) for i in range(ctx.ncol)]
+    out += [('node', j) for j in range(len(ctx.geo.nodelist))]
+    out += [('rotate',), ('translate',)]
+    out += [('surface', i, v) for i in range(ctx.ncol) for v in (2, 3)]
+    out += [('snap',)]
+    out += [('refine', i) for i in range(ctx.ncol)]
+    return out
+
+
+def apply_edit(geo, edit, alphabet):
+    """One edit through the documented interface; every edit leaves the announced lists to the library
+    except 'surface', which is followed by the two set-up calls as reading a SURFA section is."""
+    k = edit[0]
+    if k == 'none':
+        return
+    if k == 'split':
+        col = geo.columnlist[edit[1]]
+        geo.split_column(col.name, col.node[edit[2]].name)
+    elif k == 'centre':
+        col = geo.columnlist[edit[1]]
+        col.centre = col.centre + 0.15 * (col.node[0].pos - col.centre)
+        col.centre_specified = 1
+    elif k == 'node':
+        nod = geo.nodelist[edit[1]]
+        cols = [c for c in geo.columnlist if nod in c.node]
+        nod.pos = nod.pos + 0.1 * (cols[0].centre - nod.pos)
+        for c in cols:      # the refresh optimize() performs after moving nodes
+            c.get_area()
+            if not c.centre_specified:
+                c.centre = c.centroid
+    elif k == 'rotate':
+        geo.rotate(25.)
+    elif k == 'translate':
+        geo.translate([3.5, -1.25, 0.75])
+    elif k == 'surface':
+        col = geo.columnlist[edit[1]]
+        col.surface = alphabet[edit[2]]
+        geo.set_column_num_layers(col)
+        geo.setup_block_name_index()
+        geo.setup_block_connection_name_index()
+    elif k == 'snap':
+        geo.snap_columns_to_layers(0.5)
+    elif k == 'refine':
+        geo.refine([geo.columnlist[edit[1]]])
+    else:
+        raise core.HarnessError('unknown edit %r' % (edit,))
+
+
+def fnum(x):
+    return None if x is None else float(x)
+
+
+def grid_digest(grid):
+    return ([(b.name, fnum(b.volume), None if b.centre is None else tuple(float(v) for v in b.centre))
+             for b in grid.blocklist],
+            [(tuple(b.name for b in c.block), tuple(float(v) for v in c.distance), float(c.area), float(c.dircos),
+              int(c.direction)) for c in grid.connectionlist])
+
+
+def geo_digest(geo):
+    return ([(n.name, float(n.pos[0]), float(n.pos[1])) for n in geo.nodelist],
+            [(c.name, [n.name for n in c.node], float(c.centre[0]), float(c.centre[1]), c.centre_specified,
+              fnum(c.surface), c.num_layers, float(c.area)) for c in geo.columnlist],
+            [(con.column[0].name, con.column[1].name, [n.name for n in con.node]) for con in geo.connectionlist],
+            [(l.name, float(l.bottom), float(l.centre), float(l.top)) for l in geo.layerlist],
+            list(geo.block_name_list), list(geo.block_connection_name_list),
+            geo.atmosphere_type, geo.convention, geo.block_order, fnum(geo.permeability_angle))
+
+
+def eval_history(desc, naming, atm, order, angle, bmkind, sidx, edit, stats=None):
+    """convert -> edit -> convert again on one fresh geometry object; the second grid is judged against the
+    reference rebuilt from the edited geometry's raw data.  Returns (violations, outcome, nontrivial)."""
+    import sys
+    import t2grids
+    ctx = Ctx(desc, naming, 'id')
+    out = []
+    tag = '|after=%s' % ('second-call' if edit[0] == 'none' else edit[0])
+
+    def add(clause, cls, what):
+        sig = 'C04|fromgeo|%s|%s%s' % (clause, cls, tag)
+        if not any(o[0] == sig for o in out):
+            out.append((sig, what))
+
+    with quiet():
+        geo, st = ctx.configure(atm, order, angle, sidx, 'direct')
+        bm = make_blockmap(bmkind, list(geo.block_name_list))
+        before = geo_digest(geo)
+        bm_before = None if bm is None else dict(bm)
+        try:
+            with core.timelimit(CASE_SECONDS):
+                grid1 = t2grids.t2grid().fromgeo(geo) if bm is None else t2grids.t2grid().fromgeo(geo, bm)
+        except core.CaseTimeout:
+            raise
+        except Exception:
+            return out, 'first-conversion-raised', False       # judged by the plain cases
+        if geo_digest(geo) != before or bm != bm_before:
+            add('fromgeo-modifies-its-arguments', 'geometry' if bm == bm_before else 'blockmap',
+                'the geometry (or block mapping) differs after fromgeo')
+        try:
+            with core.timelimit(CASE_SECONDS):
+                apply_edit(geo, edit, ctx.alphabet)
+            st2 = R.Static(R.extract(geo))
+            if order == 'dmplex' and not all(len(c['nodes']) in (3, 4) for c in st2.raw.cols):
+                raise R.RefError('dmplex no longer applies')
+        except core.CaseTimeout:
+            raise
+        except R.RefError:
+            if stats is not None:
+                stats['history_edit_left_no_valid_geometry'] += 1
+            return out, 'edit-invalid', False                  # the edit itself is other properties' business
+        except Exception:
+            if stats is not None:
+                stats['history_edit_raised'] += 1
+            return out, 'edit-raised', False
+        announced_b = list(geo.block_name_list)
+        announced_c = list(geo.block_connection_name_list)
+        bm2 = make_blockmap(bmkind, announced_b)
+        try:
+            with core.timelimit(CASE_SECONDS):
+                grid2 = t2grids.t2grid().fromgeo(geo) if bm2 is None else t2grids.t2grid().fromgeo(geo, bm2)
+        except core.CaseTimeout:
+            add('timeout', ctx.nameclass, 'second fromgeo did not return')
+            return out, 'timeout', True
+        except Exception as e:
+            add('raises-%s@%s' % (type(e).__name__, lib_frame(sys.exc_info()[2])), 'names=%s' % ctx.nameclass,
+                'second fromgeo (after %r) raised %s: %s' % (edit, type(e).__name__, e))
+            return out, 'raised', True
+    if edit[0] == 'none' and grid_digest(grid1) != grid_digest(grid2):
+        add('second-conversion-differs', 'atm%d' % atm, 'two conversions of the same unchanged geometry differ')
+    ntrunc, nontrivial = judge(geo, st2, grid2, announced_b, announced_c, bm2, atm, order, angle, False, '', add,
+                               stats)
+    if stats is not None:
+        stats['grids_history_' + edit[0]] += 1
+    outcome = 'atm%d|%s|%s' % (atm, 'truncated' if ntrunc else 'level', 'VIOLATION' if out else 'ok')
+    return out, outcome, nontrivial
+
+
+def mixed_surfaces(ncol):
+    return tuple((1, 2, 5, 0, 3, 4)[i % 6] for i in range(ncol))
 
 
 # ---------------------------------------------------------------------------------------------------------
@@ -751,6 +914,12 @@ def units(tier):
         for naming in (LIBN if thorough else (('lib0',) if desc[3] < 4 else ())):
             us.append(U(desc, naming, 'id', 'k1', orders=ALL_ORD if thorough else (None,), angles=(0.0,),
                         bmaps=('none', 'full') if thorough else ('none',), routes=ROUTES))
+        # histories on one object: convert, edit, convert again
+        for naming in (('lib0', 'lib3') if thorough else (('lib0',) if desc[3] < 4 else ())):
+            for atm in ALL_ATM:
+                us.append(dict(U(desc, naming, 'id', 'hist', atms=(atm,), orders=ALL_ORD if thorough else (None,),
+                                 angles=(30.0,) if thorough else (0.0,),
+                                 bmaps=('none', 'full') if thorough else ('none',)), history=True))
         # layer_column spelt out, and numeric column names under convention 0
         us.append(U(desc, 'lib0', 'id', 'k1', orders=('layer_column',), angles=(0.0,), bmaps=('none',)))
         if desc[3] == 2 or thorough:
@@ -770,6 +939,11 @@ def units(tier):
             if thorough or naming == 'c0' or (naming == 'c1' and desc != ('mixr',)):
                 us.append(U(desc, naming, 'id', 'k1', orders=ALL_ORD if thorough else (None,), angles=(0.0,),
                             bmaps=('none', 'full') if thorough else ('none',), routes=ROUTES))
+        for naming in (('c0', 'c3') if thorough else ('c0',)):
+            for atm in ALL_ATM:
+                us.append(dict(U(desc, naming, 'id', 'hist', atms=(atm,), orders=ALL_ORD if thorough else (None,),
+                                 angles=(30.0,) if thorough else (0.0,),
+                                 bmaps=('none', 'full') if thorough else ('none',)), history=True))
         if not thorough:
             us.append(U(desc, 'c0', 'id', full, atms=(1,), orders=(None,), angles=(0.0,), bmaps=('none',)))
         us.append(U(desc, 'c0d', 'id', 'k1', orders=(None,), angles=(0.0,), bmaps=('none', 'full')))
@@ -812,6 +986,20 @@ def case_dict(unit, atm, order, angle, bk, sidx, route='direct'):
             'route': route}
 
 
+def run_history_unit(unit, tier, rec, ctx, stats):
+    desc = tuple(unit['desc'])
+    head = (desc, unit['naming'], 'history')
+    for sidx in ((1,) * ctx.ncol, mixed_surfaces(ctx.ncol)):
+        for atm, order, angle, bk, route in opt_product(ctx, unit['atms'], unit['orders'], unit['angles'],
+                                                        unit['bmaps']):
+            for edit in edits_of(ctx):
+                viol, outcome, nontrivial = eval_history(desc, unit['naming'], atm, order, angle, bk, sidx, edit,
+                                                         stats)
+                rec.case((head, atm, order, angle, bk, sidx, edit), nontrivial=nontrivial, outcome=outcome)
+                for sig, what in viol:
+                    rec.violation(sig, what, dict(case_dict(unit, atm, order, angle, bk, sidx), edit=list(edit)))
+
+
 def run_unit(unit, tier, rec):
     from collections import Counter
     core.load_library()
@@ -819,6 +1007,14 @@ def run_unit(unit, tier, rec):
     ctx = Ctx(desc, unit['naming'], unit['transform'])
     if ctx.geo is None:
         rec.count('units_skipped_naming_cannot_hold_geometry', 1)
+        return
+    if unit.get('history'):
+        stats = Counter()
+        run_history_unit(unit, tier, rec, ctx, stats)
+        for k, v in stats.items():
+            rec.count(k, v)
+        rec.count('units', 1)
+        rec.count('units_%s' % desc[0], 1)
         return
     ssets = surface_sets(unit['surf'], ctx.ncol, ctx.pairs)
     if 'chunk' in unit:
@@ -868,6 +1064,8 @@ def finalize(rec, tier):
         'transforms (rot90, rot30, shift, tiltx, tilty)': 'crossed with the options, surfaces k <= 1 '
                                                           '(base surface on g7 and refinements)',
         'shipped geometries as read': 'g1..g7 (also rotated 30, shifted, tilted)' if tier == 'thorough' else 'g1, g5, g7',
+        'history on one object (convert, one edit, convert again; second grid judged)': 'every edit of the alphabet x '
+        'atmosphere type x 2 surface assignments on the rectangular and hand-made meshes',
         'route to the final atmosphere type / block order / convention': 'direct | assigned from each other type | '
         'written with each type, read back, assigned | other block order then assigned | convention 0 then 3 assigned; '
         'crossed with atmosphere type x surfaces k <= 1 on the rectangular and hand-made meshes (base surface on g7)'}}
@@ -875,6 +1073,11 @@ def finalize(rec, tier):
 
 def replay(case):
     core.load_library()
+    if case.get('edit') is not None:
+        sidx = case['surfaces']
+        viol, outcome, nontrivial = eval_history(tuple(case['desc']), case['naming'], case['atm'], case['order'],
+                                                 case['angle'], case['blockmap'], tuple(sidx), tuple(case['edit']))
+        return viol
     ctx = Ctx(tuple(case['desc']), case['naming'], case['transform'])
     if ctx.geo is None:
         return []
@@ -891,6 +1094,9 @@ BOUNDS = {
               'transforms': 'nz = 3 shapes and the hand-made meshes, one convention, k <= 1',
               'routes': 'nz <= 3 shapes (convention 0), mix / tq (conventions 0, 1), mix refined (0): 8 routes x 3 atmosphere '
                         'types x k <= 1; g7 base surface',
+              'histories': 'nz <= 3 shapes and mix / tq / mix refined, convention 0: every edit of the alphabet (each quad x node '
+                           'split, each column centre, each node, rotate, translate, each column x 2 surfaces, snap, each column '
+                           'refined, none) x 3 atmosphere types x 2 surface assignments',
               'irregular': 'mix (6 columns), tq (4 columns), mix refined (12 columns): k <= 1 under every option, '
                            'k <= 2 / 6^4 / connected pairs at one setting; g7: base under the options, k <= 1 at atmosphere type 1; '
                            'g7 refined (all / part): base',
@@ -900,6 +1106,8 @@ BOUNDS = {
                  'transforms': 'every shape x 4 conventions x all options, k <= 1',
                  'routes': 'every rectangular shape x 4 conventions, mix / tq / mix refined x 4 conventions: 8 routes x 3 atmosphere '
                            'types x {None, dmplex} x {no map, full} x k <= 1; g7 base surface',
+                 'histories': 'every shape and hand-made mesh, conventions 0 and 3: every edit x 3 atmosphere types x {None, dmplex} x '
+                              '{no map, full map} x 2 surface assignments, angle 30',
                  'irregular': 'mix k <= 2, tq 6^4, mix refined connected pairs, under every option; g7: base under every option and '
                               'transform, connected pairs (k <= 2) per atmosphere type; g7 partly refined k <= 1; g7 refined base',
                  'files': 'g1..g7 x {as read, rotated 30, shifted, tilted} x 3 atmosphere types x {no map, full map}'}}
